@@ -61,6 +61,7 @@ void storeAppendPrintf(StoreEntry *, const char *, ...) {}
 const char *storeKeyText(const cache_key *) { return "key"; }
 void StoreEntry::lock(const char *) {}
 int StoreEntry::unlock(const char *) { return 0; }
+std::ostream &operator<<(std::ostream &os, const StoreEntry &) { return os; }
 
 // Store::Root().markedForDeletion(key), consulted by StoreMapAnchor::setKey(): no other table knows the key
 static std::aligned_storage<sizeof(Store::Controller), alignof(Store::Controller)>::type FakeRoot;
